@@ -663,6 +663,36 @@ def tyinst_choice(rng, dg):
     return d
 
 
+def mk_events(d):
+    """`dag_to` nodes as (mk A NODE) events for the heap ops of the driver"""
+    evs = []
+    for i, nd in enumerate(d["nodes"]):
+        k = nd[0]
+        if k in ("sv", "v", "c"):
+            node = [k, sexp.enc(nd[1]), sexp.loads(nd[2])]
+        elif k == "ap":
+            node = ["ap", nd[1], nd[2]]
+        elif k == "ab":
+            node = ["ab", sexp.enc(nd[1]), sexp.loads(nd[2]), nd[3]]
+        else:
+            node = ["b", nd[1]]
+        evs.append(["mk", i, node])
+    return evs
+
+
+def heap_tie(ctx, B, name, line, result):
+    """the heap-level model of an operation (with its _id caches / short cuts) against the
+    implementation's result, up to bound names"""
+    want = sexp.dumps(kwire.canon_term(wire(result)))
+
+    def cb(ans, ln, want=want):
+        got = sexp.dumps(kwire.canon_term(ans[1])) if ans != "bad-op" and ans[0] == "ok" else None
+        ctx.count("%s:heap-model-%s" % (name, "agrees" if got == want else "differs"))
+        if got != want:
+            mismatch(ctx, "a:%s-heap" % name, "%s: python %s, heap model %s" % (ln[:400], want[:300], (got or str(ans))[:300]))
+    B.ask(line, cb)
+
+
 def ops_case(ctx, B, rng, dg):
     from kernel.type import TyInst, TFun
     from kernel.term import Term, Var, SVar, Comb, Abs, Lambda, Inst, Bound
@@ -702,6 +732,9 @@ def ops_case(ctx, B, rng, dg):
     inc = rng.randint(0, 3)
     r = pycall(lambda: t.incr_boundvars(inc))
     check_op(ctx, B, "a", "incr_boundvars", ["incr", inc, wire(t)], r, o_incr(t, inc), rp_terms(t=t, inc=inc))
+    if r[0] == "ok":
+        d = dag_to([t])
+        heap_tie(ctx, B, "incr_boundvars", ["incrheap", mk_events(d), d["roots"][0], inc], r[1])
     # ---- abstract_over
     vs = [v for v in pycall(lambda: t.get_vars() + t.get_svars())[1]] if True else []
     if vs and rng.random() < 0.85:
@@ -741,30 +774,11 @@ def ops_case(ctx, B, rng, dg):
         ctx.count("subst_bound:open-argument")
     r = pycall(lambda: lam.subst_bound(arg))
     check_op(ctx, B, "a", "subst_bound", ["substbound", wire(lam), wire(arg)], r, o_subst_bound(lam.body, arg), rp)
-    if pycall(lambda: arg.is_open()) == ("ok", False) and r[0] == "ok":
-        # the heap-level model of subst_bound with its (_id, depth) cache (Model.lean (e)) on the
-        # same DAG: same term up to bound names
+    isop = pycall(lambda: arg.is_open())
+    if isop[0] == "ok" and r[0] == "ok":
+        # subst_bound on the heap with its (_id, depth) cache, closed or open argument (Model.lean (e),(f))
         d = dag_to([lam.body, arg])
-        evs = []
-        for i, nd in enumerate(d["nodes"]):
-            k = nd[0]
-            if k in ("sv", "v", "c"):
-                node = [k, sexp.enc(nd[1]), sexp.loads(nd[2])]
-            elif k == "ap":
-                node = ["ap", nd[1], nd[2]]
-            elif k == "ab":
-                node = ["ab", sexp.enc(nd[1]), sexp.loads(nd[2]), nd[3]]
-            else:
-                node = ["b", nd[1]]
-            evs.append(["mk", i, node])
-        want = sexp.dumps(kwire.canon_term(wire(r[1])))
-
-        def cbs(ans, ln, want=want):
-            got = sexp.dumps(kwire.canon_term(ans[1])) if ans != "bad-op" and ans[0] == "ok" else None
-            ctx.count("subst_bound:heap-cache-model-%s" % ("agrees" if got == want else "differs"))
-            if got != want:
-                mismatch(ctx, "a:subst_bound-heap", "%s: python %s, heap model %s" % (ln[:400], want[:300], (got or str(ans))[:300]))
-        B.ask(["sbheap", True, evs, d["roots"][1], d["roots"][0], 0], cbs)
+        heap_tie(ctx, B, "subst_bound", ["sbheap", True, bool(isop[1]), mk_events(d), d["roots"][1], d["roots"][0], 0], r[1])
     r2 = pycall(lambda: rx.beta_conv())
     check_op(ctx, B, "a", "beta_conv", ["betaconv", wire(rx)], r2, o_subst_bound(lam.body, arg), rp)
     if r[0] == "ok":
@@ -863,6 +877,16 @@ def subst_case(ctx, B, rng, dg):
     if r[0] == "ok":
         orc = o_subst_vars(o_subst_type(t, final), svmap, vmap)
     check_op(ctx, B, "a", "subst", ["subst", before, wire(t)], r, orc, rp)
+    if r[0] == "ok":
+        # `rec` of Term.subst on the heap with its _id cache (Model.lean (f)), on the type-instantiated
+        # term (the DAG itself when there is nothing to instantiate)
+        t1 = o_subst_type(t, final) if final else t
+        names_sv, names_vv = list(svmap), list(vmap)
+        d = dag_to([t1] + [svmap[n] for n in names_sv] + [vmap[n] for n in names_vv])
+        rs = d["roots"]
+        heap_tie(ctx, B, "subst", ["substheap", mk_events(d),
+                                   [[sexp.enc(n), rs[1 + i]] for i, n in enumerate(names_sv)],
+                                   [[sexp.enc(n), rs[1 + len(names_sv) + i]] for i, n in enumerate(names_vv)], rs[0]], r[1])
     if r[0] == "ok":
         Tr = type_of(r[1])
         if Tr[0] != "ok" or tkey(Tr[1]) != tkey(o_ty_subst(Tc[1], final)):
@@ -1881,7 +1905,14 @@ MANIFEST = {
             "are total orders whose equivalence is ==; in a heap whose allocator may return any free address and whose objects may be freed at "
             "any time every constructor / Term(t) / copy keeps `_id = own address`, hence the _id fast path of == agrees with the structural "
             "comparison (fails on the pinned tree: 4-step counterexample), and subst_bound run on the heap with its (_id, depth)-keyed cache and "
-            "_id-based re-use returns a representation of the pure result (substBound_cache_sound; counterexample for the key without depth); "
+            "_id-based re-use — closed or OPEN argument, the latter through the heap-level incr_boundvars (incr_heap_sound) — returns a "
+            "representation of the pure result (substBound_cache_sound; counterexample for the key without depth), likewise `rec` of Term.subst "
+            "with its _id-keyed cache (subst_cache_sound; counterexample when IdInv fails); for every history (MSteps: constructors, Term(t), copy, "
+            "frees, hash, subst_type_inplace, allocating operations) == on two heap objects is alpha-equivalence of their unfoldings and their "
+            "hashes agree (heap_eq_iff_alpha); fast_compare is transitive in all four </= combinations, antisymmetric and constant on == classes "
+            "(cmp_trans, cmp_antisymm), hence a strictly sorted list is determined up to == by its elements (sorted_canonical); beta_conv keeps "
+            "type and denotation (betaConv_sem); beta_norm never raises, and whenever it returns the result is normal, typed, equal in denotation "
+            "and the same for every larger recursion depth (betaNorm_sem); "
             "subst_type, subst, subst_bound, abstract_over/Lambda (closed bodies), beta_conv, beta_norm preserve well-typedness, the type and the "
             "denotation in every finite standard model (for every valuation and environment: no capture). The model is tied to kernel/term.py, "
             "type.py, term_ord.py by differential execution on generated DAG terms, object histories with the real addresses, and parsed terms; "
@@ -1891,7 +1922,8 @@ MANIFEST = {
             "good as the generated cases. How __hash__ builds its value and which bound names results carry are NOT checked (reported as "
             "info:* counters): a refactoring that keeps 'equal terms have equal hashes' passes. beta_norm: if it returns (fuel); termination not "
             "proved. The caches of subst / incr_boundvars / abstract_over short cuts are covered by _id injectivity (theorem) plus differential "
-            "testing on shared DAGs; subst_bound's cache is modelled on the heap for closed arguments only. __copy__, deepcopy, pickle: "
+            "testing on shared DAGs; the caches of subst_bound and of subst's rec are modelled on the heap (subst's preceding subst_type and the "
+            "abs_name_inst renaming are not). Termination of beta_norm on well-typed terms (strong normalisation) is NOT proved. __copy__, deepcopy, pickle: "
             "correspondence only. Infinite models outside the property.",
     "design_ref": "DESIGN.md 4/C03",
 }
